@@ -15,16 +15,28 @@
                    its own hash and its content occurs in the programs or in cas0
      ci_nodangling every index entry has its blob, of the recorded size   (C04)
      ci_intents    g_byhash is exactly the number of registered, not yet released intents
-                   per hash ([intents], [reg]); registered = PRen, WLockI/S/W (WPut), and
-                   WApplied (WPut) (the release happens in the step that leaves WApplied)
+                   per hash ([intents], [reg]); registered = PRen, PDropI (a failed rename whose
+                   guard has not been dropped yet), WLockI/S/W (WPut), and WApplied (WPut)
+                   (the release happens in the step that leaves WApplied, resp. PDropI; the
+                   error exit of WUnlink releases NOTHING: the put's intent is already gone)
      ci_pc         per-thread facts [pc_ok]: commit window has its blob, the pending
                    deletions are unreferenced (and unprotected after the filter), the item
                    carried by a reader is a valid item, and for a reader parked at
                    GOpenL k it (holding S shared) km(k) = it STILL holds -- the key map only
                    changes in WLockW steps, whose thread holds S exclusively ...
      ci_accounted  every blob in the directory is referenced, or protected, or pending in
-                   the un/todo list of a thread at WApplied/WUnlink, or an initial orphan
-                   (the extra clause needed for C07 at quiescence)
+                   the un/todo list of a thread at WApplied/WUnlink, or an initial orphan,
+                   or something has failed ([leaked]: some path is obstructed AND some call
+                   has returned CErr) (the extra clause needed for C07 at quiescence)
+
+   Faults: the invariant holds for ARBITRARY fault parameters [bad] (obstructed blob paths) and
+   [ckbad] (failing checkpoints) of the model; it depends on bad only through pc_ok (a thread is
+   parked at PDropI k h _ only when bad h) and [leaked].  The new steps: PRen with bad (H c)
+   (-> PDropI, local), PDropI (step_pdrop: the ledger is decremented once), WUnlink with bad
+   head (error exit, I released, local except that the pending deletions become [leaked]),
+   GOpen / GOpenL / OUnlink with bad hash and WCkW (local: a checkpoint that is not skipped
+   only records last_persisted_version in the index -- also when the snapshot write fails --
+   so the key map, the refcounts and IdxInv are untouched; step_local allows such an idx').
 
    Setting: H (hash), cmp (key order, four order hypotheses), nops, the programs thr0,
    the initial blob directory cas0 (sorted, well named) and collision freedom over the
@@ -275,7 +287,8 @@ Section Intents.
   (* thread parked at p has a registered, not yet released intent on hash h *)
   Definition reg (p : pc) (h : bytes) : bool :=
     match p with
-    | PRen _ c => beqb (H c) h
+    | PRen _ c _ => beqb (H c) h
+    | PDropI _ h' _ => beqb h' h
     | WLockI (WPut _ h' _) | WLockS (WPut _ h' _) | WLockW (WPut _ h' _)
     | WApplied (WPut _ h' _) _ _ => beqb h' h
     | _ => false
@@ -330,6 +343,8 @@ Section ConcInv.
   Hypothesis cmp_antisym : forall a b, cmp b a = CompOpp (cmp a b).
   Hypothesis cmp_trans : forall a b c, cmp a b = Lt -> cmp b c = Lt -> cmp a c = Lt.
   Variable nops : N.
+  Variable bad : bytes -> bool.
+  Variable ckbad : bool.
   Variable thr0 : list (nat * list ccall).
   Hypothesis thr0_nodup : NoDup (map fst thr0).
   Variable cas0 : smap bytes.
@@ -343,7 +358,7 @@ Section ConcInv.
   Hypothesis NoCollideC : forall a b, In a allc -> In b allc -> H a = H b -> a = b.
 
   Definition reachable (g : cstate) : Prop :=
-    exists sched, g = crun H cmp nops (init_c thr0 cas0) sched.
+    exists sched, g = crun H cmp nops bad ckbad (init_c thr0 cas0) sched.
 
   (* the blob of hash h is in the directory, with the right name and size *)
   Definition blob_ok (cas : smap bytes) (h : bytes) (sz : N) : Prop :=
@@ -359,7 +374,8 @@ Section ConcInv.
      and the blob directory *)
   Definition pc_ok (m : smap item) (bh : smap N) (cas : smap bytes) (p : pc) : Prop :=
     match p with
-    | PReg _ c | PILock _ c | PRen _ c => In c (contents thr0)
+    | PReg _ c | PILock _ c | PRen _ c _ => In c (contents thr0)
+    | PDropI _ h _ => bad h = true
     | WLockI (WPut _ h sz) | WLockS (WPut _ h sz) | WLockW (WPut _ h sz) => blob_ok cas h sz
     | WApplied w un _ =>
       (forall h, In h un -> count_refs m h = 0) /\
@@ -372,12 +388,18 @@ Section ConcInv.
     | _ => True
     end.
 
+  (* a deletion has failed (or an intent was reverted after a failed rename): some path is
+     obstructed and some call has returned an error *)
+  Definition leaked (thr : list (nat * tstate)) : Prop :=
+    (exists x, bad x = true) /\ exists t ts, tget thr t = Some ts /\ In CErr (t_res ts).
+
   Definition accounted (m : smap item) (bh : smap N) (thr : list (nat * tstate)) (h : bytes)
     : Prop :=
     0 < count_refs m h \/
     sm_get lex_cmp bh h <> None \/
     (exists t ts, tget thr t = Some ts /\ pending (t_pc ts) h) \/
-    In h (map fst cas0).
+    In h (map fst cas0) \/
+    leaked thr.
 
   Record ConcInv (g : cstate) : Prop := mkConcInv {
     ci_nodup : NoDup (map fst (g_thr g));
@@ -499,20 +521,26 @@ Section ConcInv.
 
   Lemma accounted_step m bh thr t ts ts' m' bh' h :
     tget thr t = Some ts ->
+    incl (t_res ts) (t_res ts') ->
     accounted m bh thr h ->
     (0 < count_refs m h -> accounted m' bh' (tset thr t ts') h) ->
     (sm_get lex_cmp bh h <> None -> accounted m' bh' (tset thr t ts') h) ->
     (pending (t_pc ts) h -> accounted m' bh' (tset thr t ts') h) ->
     accounted m' bh' (tset thr t ts') h.
   Proof using.
-    intros Ht [A|[A|[(u & tsu & G & P)|A]]] H1 H2 H3.
+    intros Ht Hres [A|[A|[(u & tsu & G & P)|[A|(Bx & u & tsu & G & P)]]]] H1 H2 H3.
     - apply H1, A.
     - apply H2, A.
     - destruct (Nat.eq_dec u t) as [->|N].
       + rewrite Ht in G. inversion G; subst tsu. apply H3, P.
       + right; right; left. exists u, tsu. split; [|exact P].
         rewrite (tget_tset_other _ _ _ _ N). exact G.
-    - right; right; right. exact A.
+    - right; right; right; left. exact A.
+    - right; right; right; right. split; [exact Bx|].
+      destruct (Nat.eq_dec u t) as [->|N].
+      + rewrite Ht in G. inversion G; subst tsu. exists t, ts'.
+        split; [apply tget_tset_same|apply Hres, P].
+      + exists u, tsu. split; [|exact P]. rewrite (tget_tset_other _ _ _ _ N). exact G.
   Qed.
 
   Lemma acc_ref m bh thr h : 0 < count_refs m h -> accounted m bh thr h.
@@ -523,10 +551,19 @@ Section ConcInv.
   Proof using.
     intros A; right; right; left. exists t, ts'. split; [apply tget_tset_same|exact A].
   Qed.
+  Lemma acc_leak m bh thr t ts' x h :
+    bad x = true -> In CErr (t_res ts') -> accounted m bh (tset thr t ts') h.
+  Proof using.
+    intros B A; right; right; right; right. split; [exists x; exact B|].
+    exists t, ts'. split; [apply tget_tset_same|exact A].
+  Qed.
 
   (* ---- steps that touch neither the index, nor the intent table, nor the directory ---- *)
-  Lemma step_local g t ts ts' bk' nv' I' S' R' :
+  (* the index may change in its last_persisted_version only (a checkpoint): the key map and
+     the invariant of the index are kept *)
+  Lemma step_local g t ts ts' idx' bk' nv' I' S' R' :
     ConcInv g -> tget (g_thr g) t = Some ts ->
+    km idx' = km (g_idx g) -> IdxInv cmp idx' ->
     (forall h, reg H (t_pc ts') h = reg H (t_pc ts) h) ->
     lock_step (g_I g) holdsI (t_pc ts) (t_pc ts') t I' ->
     lock_step (g_S g) holdsS (t_pc ts) (t_pc ts') t S' ->
@@ -534,21 +571,22 @@ Section ConcInv.
     (S' <> None -> R' = []) ->
     pc_ok (km (g_idx g)) (g_byhash g) (g_cas g) (t_pc ts') ->
     calls_ok (t_calls ts') ->
-    (forall h, pending (t_pc ts) h -> pending (t_pc ts') h) ->
-    ConcInv (mkC (g_idx g) bk' (g_byhash g) (g_cas g) nv' I' S' R' (tset (g_thr g) t ts')).
+    incl (t_res ts) (t_res ts') ->
+    (forall h, pending (t_pc ts) h ->
+       accounted (km (g_idx g)) (g_byhash g) (tset (g_thr g) t ts') h) ->
+    ConcInv (mkC idx' bk' (g_byhash g) (g_cas g) nv' I' S' R' (tset (g_thr g) t ts')).
   Proof using.
-    intros Inv Ht HR LI LS LR HSR Hself Hcalls Hpend.
-    apply step_general with (ts := ts); try assumption.
-    - apply (ci_idx _ Inv).
+    intros Inv Ht Hkm Hidx HR LI LS LR HSR Hself Hcalls Hres Hpend.
+    apply step_general with (ts := ts); rewrite ?Hkm; try assumption.
     - apply (ci_cas_sorted _ Inv).
     - apply (ci_cas_named _ Inv).
     - apply (ci_nodangling _ Inv).
     - eapply RcRep_ext; [|apply (ci_intents _ Inv)]. intros h. cbn beta. rewrite HR. lia.
     - intros u tsu _ _ P. exact P.
-    - intros h c G. eapply accounted_step; [exact Ht|apply (ci_accounted _ Inv _ _ G)| | |].
+    - intros h c G. eapply accounted_step; [exact Ht|exact Hres|apply (ci_accounted _ Inv _ _ G)| | |].
       + apply acc_ref.
       + apply acc_prot.
-      + intros P. apply acc_pend, Hpend, P.
+      + apply Hpend.
   Qed.
 
   (* ---- who can hold I ---- *)
@@ -602,11 +640,11 @@ Section ConcInv.
   Qed.
 
   (* ---- PILock: register the intent ---- *)
-  Lemma step_pilock g t ts k c bk' :
+  Lemma step_pilock g t ts k c bk' repl :
     ConcInv g -> tget (g_thr g) t = Some ts -> t_pc ts = PILock k c -> free (g_I g) = true ->
     ConcInv (mkC (g_idx g) bk' (register_hash (g_byhash g) (H c)) (g_cas g) (g_nextv g)
                  (g_I g) (g_S g) (g_R g)
-                 (tset (g_thr g) t (mkT (t_calls ts) (PRen k c) (t_res ts)))).
+                 (tset (g_thr g) t (mkT (t_calls ts) (PRen k c repl) (t_res ts)))).
   Proof using.
     intros Inv Ht Hpc Hfree. apply free_none in Hfree.
     destruct (ci_pc _ Inv _ _ Ht) as [Pt Ct]. rewrite Hpc in Pt. cbn [pc_ok] in Pt.
@@ -625,7 +663,7 @@ Section ConcInv.
     - exact Ct.
     - intros u tsu _ G P. eapply pc_ok_frame_bh; [|exact P].
       eapply nobody_holds_I; eassumption.
-    - intros h c0 G. eapply accounted_step; [exact Ht|apply (ci_accounted _ Inv _ _ G)| | |].
+    - intros h c0 G. eapply accounted_step; [exact Ht|apply incl_refl|apply (ci_accounted _ Inv _ _ G)| | |].
       + apply acc_ref.
       + intros A. apply acc_prot.
         apply (rcrep_pos _ _ _ RR). apply (rcrep_pos _ _ _ (ci_intents _ Inv)) in A.
@@ -634,8 +672,8 @@ Section ConcInv.
   Qed.
 
   (* ---- PRen: the blob appears under its canonical name ---- *)
-  Lemma step_pren g t ts k c :
-    ConcInv g -> tget (g_thr g) t = Some ts -> t_pc ts = PRen k c ->
+  Lemma step_pren g t ts k c repl :
+    ConcInv g -> tget (g_thr g) t = Some ts -> t_pc ts = PRen k c repl ->
     ConcInv (mkC (g_idx g) (g_bykey g) (g_byhash g) (sm_ins lex_cmp (g_cas g) (H c) c)
                  (g_nextv g) (g_I g) (g_S g) (g_R g)
                  (tset (g_thr g) t (mkT (t_calls ts) (WLockI (WPut k (H c) (len c))) (t_res ts)))).
@@ -663,10 +701,46 @@ Section ConcInv.
       + apply acc_prot. eapply registered_protected; [exact Inv|exact Ht|].
         rewrite Hpc. cbn [reg]. apply beqb_refl.
       + rewrite lex_get_ins_other in G by assumption.
-        eapply accounted_step; [exact Ht|apply (ci_accounted _ Inv _ _ G)| | |].
+        eapply accounted_step; [exact Ht|apply incl_refl|apply (ci_accounted _ Inv _ _ G)| | |].
         * apply acc_ref.
         * apply acc_prot.
         * rewrite Hpc. intros [].
+  Qed.
+
+  (* ---- PDropI: the uncommitted intent is reverted (IntentGuard::drop) ---- *)
+  Lemma step_pdrop g t ts k h repl bk' :
+    ConcInv g -> tget (g_thr g) t = Some ts -> t_pc ts = PDropI k h repl -> free (g_I g) = true ->
+    ConcInv (mkC (g_idx g) bk' (release_hash (g_byhash g) h) (g_cas g) (g_nextv g)
+                 (g_I g) (g_S g) (g_R g)
+                 (tset (g_thr g) t (mkT (t_calls ts) Idle (t_res ts ++ [CErr])))).
+  Proof using.
+    intros Inv Ht Hpc Hfree. apply free_none in Hfree.
+    destruct (ci_pc _ Inv _ _ Ht) as [Pt Ct]. rewrite Hpc in Pt. cbn [pc_ok] in Pt.
+    assert (RR : RcRep (release_hash (g_byhash g) h)
+                       (fun x => intents H (g_thr g) x - b01 (reg H (t_pc ts) x))).
+    { rewrite Hpc. cbn [reg]. apply release_rep; [apply (ci_intents _ Inv)|].
+      eapply intents_pos; [exact Ht|]. rewrite Hpc. cbn [reg]. apply beqb_refl. }
+    apply step_general with (ts := ts); [exact Inv|exact Ht|..]; cbn [t_pc t_calls t_res].
+    - rewrite Hpc. left; split; reflexivity.
+    - rewrite Hpc. left; split; reflexivity.
+    - rewrite Hpc. left; split; reflexivity.
+    - apply (ci_SR _ Inv).
+    - apply (ci_idx _ Inv).
+    - apply (ci_cas_sorted _ Inv).
+    - apply (ci_cas_named _ Inv).
+    - apply (ci_nodangling _ Inv).
+    - eapply RcRep_ext; [|exact RR]. intros x. cbn [reg b01]. lia.
+    - exact I.
+    - exact Ct.
+    - intros u tsu _ G P. eapply pc_ok_frame_bh; [|exact P].
+      eapply nobody_holds_I; eassumption.
+    - intros x c0 G.
+      eapply accounted_step; [exact Ht|apply incl_appl, incl_refl|apply (ci_accounted _ Inv _ _ G)| | |].
+      + apply acc_ref.
+      + intros _. destruct (sm_get lex_cmp (release_hash (g_byhash g) h) x) eqn:E;
+          [apply acc_prot; congruence|].
+        apply (acc_leak _ _ _ _ _ h); [exact Pt|]. cbn [t_res]. apply in_or_app. right. left. reflexivity.
+      + rewrite Hpc. intros [].
   Qed.
 
   (* ---- WLockW: append + apply ---- *)
@@ -728,7 +802,7 @@ Section ConcInv.
       + apply (nobody_reads g u tsu Inv); [|exact G].
         apply (ci_SR _ Inv). rewrite (holder_S g t ts Inv Ht) by (rewrite Hpc; reflexivity).
         discriminate.
-    - intros h c G. eapply accounted_step; [exact Ht|apply (ci_accounted _ Inv _ _ G)| | |].
+    - intros h c G. eapply accounted_step; [exact Ht|apply incl_refl|apply (ci_accounted _ Inv _ _ G)| | |].
       + intros A. destruct (N.eq_dec (count_refs (km idx') h) 0) as [Z|Z].
         * apply acc_pend. cbn [t_pc pending]. apply HI. split; assumption.
         * apply acc_ref. lia.
@@ -783,7 +857,7 @@ Section ConcInv.
     - exact Ct.
     - intros u tsu N G P. eapply pc_ok_frame_bh; [|exact P].
       apply (only_one_holds_I g t ts u tsu); assumption.
-    - intros h c G. eapply accounted_step; [exact Ht|apply (ci_accounted _ Inv _ _ G)| | |].
+    - intros h c G. eapply accounted_step; [exact Ht|apply incl_refl|apply (ci_accounted _ Inv _ _ G)| | |].
       + apply acc_ref.
       + intros A. destruct (sm_get lex_cmp bh' h) eqn:E; [apply acc_prot; congruence|].
         apply acc_ref.
@@ -811,11 +885,12 @@ Section ConcInv.
     holdsR (t_pc ts') = holdsR (t_pc ts) ->
     pc_ok (km (g_idx g)) (g_byhash g) (sm_del lex_cmp (g_cas g) h) (t_pc ts') ->
     calls_ok (t_calls ts') ->
+    incl (t_res ts) (t_res ts') ->
     (forall x, x <> h -> pending (t_pc ts) x -> pending (t_pc ts') x) ->
     ConcInv (mkC (g_idx g) (g_bykey g) (g_byhash g) (sm_del lex_cmp (g_cas g) h) (g_nextv g)
                  I' (g_S g) (g_R g) (tset (g_thr g) t ts')).
   Proof using.
-    intros Inv Ht Hun Hup Hr Hr' LI LS LR Pself Cself Hpend.
+    intros Inv Ht Hun Hup Hr Hr' LI LS LR Pself Cself Hres Hpend.
     pose proof (ci_cas_sorted _ Inv) as S.
     apply step_general with (ts := ts); [exact Inv|exact Ht|..].
     - exact LI.
@@ -838,7 +913,7 @@ Section ConcInv.
       assert (N : x <> h).
       { intros ->. rewrite lex_get_del_same in G by exact S. discriminate. }
       rewrite lex_get_del_other in G by assumption.
-      eapply accounted_step; [exact Ht|apply (ci_accounted _ Inv _ _ G)| | |].
+      eapply accounted_step; [exact Ht|exact Hres|apply (ci_accounted _ Inv _ _ G)| | |].
       + apply acc_ref.
       + apply acc_prot.
       + intros P. apply acc_pend. apply Hpend; assumption.
@@ -870,11 +945,12 @@ Section ConcInv.
     apply step_local with (ts := ts); [exact Inv | exact Ht | ..];
     rewrite ?Hpc; cbn [t_pc t_calls reg holdsI holdsS holdsR pending];
     try first [ exact I | assumption | (intros; reflexivity) | (left; split; reflexivity)
-              | exact (ci_SR _ Inv)
+              | apply incl_refl | (apply incl_appl; apply incl_refl)
+              | exact (ci_SR _ Inv) | exact (ci_idx _ Inv)
               | (intros X; exfalso; apply X; reflexivity)
               | match goal with |- forall _, False -> _ => intros ? [] end ].
 
-  Theorem cstep_inv g t g' : ConcInv g -> cstep H cmp nops g t = Some g' -> ConcInv g'.
+  Theorem cstep_inv g t g' : ConcInv g -> cstep H cmp nops bad ckbad g t = Some g' -> ConcInv g'.
   Proof using cmp_refl cmp_eq cmp_antisym cmp_trans NoCollideC.
     intros Inv. unfold cstep.
     destruct (tget (g_thr g) t) as [ts|] eqn:Ht; [|discriminate].
@@ -893,7 +969,14 @@ Section ConcInv.
       destruct (free (g_I g)) eqn:F; [|discriminate].
       intros E; inversion E; subst g'; clear E. apply step_pilock; assumption.
     - (* PRen *)
-      intros E; inversion E; subst g'; clear E. apply step_pren; assumption.
+      destruct (bad (H c)) eqn:Bd; intros E; inversion E; subst g'; clear E.
+      + local_step Inv Ht ts Hpc.
+      + eapply step_pren; eassumption.
+    - (* PDropI *)
+      destruct (free (g_I g)) eqn:F; [|discriminate].
+      intros E; inversion E; subst g'; clear E. unfold finish.
+      cbn [g_idx g_bykey g_byhash g_cas g_nextv g_I g_S g_R g_thr].
+      eapply step_pdrop; eassumption.
     - (* WLockI *)
       destruct (free (g_I g)) eqn:F; [|discriminate]. apply free_none in F.
       intros E; inversion E; subst g'; clear E. local_step Inv Ht ts Hpc.
@@ -935,16 +1018,21 @@ Section ConcInv.
       destruct Pt as [NE Pt].
       destruct todo as [|h rest]; [discriminate|].
       destruct (Pt h (or_introl eq_refl)) as [Hun Hup].
+      destruct (bad h) eqn:Bd.
+      { intros E; inversion E; subst g'; clear E. local_step Inv Ht ts Hpc.
+        - right; right. repeat split; reflexivity.
+        - intros x _. apply (acc_leak _ _ _ _ _ h); [exact Bd|]. cbn [t_res].
+          apply in_or_app. right. left. reflexivity. }
       destruct rest as [|h2 rest]; intros E; inversion E; subst g'; clear E.
       + apply (step_unlink g t ts (mkT (t_calls ts) (WReleased w rolled) (t_res ts)) h None Inv Ht
-                 Hun Hup); rewrite ?Hpc; cbn [t_pc t_calls reg holdsI holdsS pending pc_ok];
-          try first [exact I|assumption|(intros; reflexivity)].
+                 Hun Hup); rewrite ?Hpc; cbn [t_pc t_calls t_res reg holdsI holdsS pending pc_ok];
+          try first [exact I|assumption|(intros; reflexivity)|apply incl_refl].
         * right; right. repeat split; reflexivity.
         * intros x N [->|[]]. congruence.
       + apply (step_unlink g t ts (mkT (t_calls ts) (WUnlink w (h2 :: rest) rolled) (t_res ts)) h
                  (g_I g) Inv Ht Hun Hup);
-          rewrite ?Hpc; cbn [t_pc t_calls reg holdsI holdsS pending pc_ok];
-          try first [exact I|assumption|(intros; reflexivity)].
+          rewrite ?Hpc; cbn [t_pc t_calls t_res reg holdsI holdsS pending pc_ok];
+          try first [exact I|assumption|(intros; reflexivity)|apply incl_refl].
         * left; split; reflexivity.
         * split; [discriminate|]. intros x Hx. apply Pt. right; exact Hx.
         * intros x N [->|Hx]; [congruence|exact Hx].
@@ -958,9 +1046,12 @@ Section ConcInv.
       intros E; inversion E; subst g'; clear E. local_step Inv Ht ts Hpc.
       + right; left. repeat split; try reflexivity. exact F.
       + intros _. exact ER.
-    - (* WCkW *)
-      intros E; inversion E; subst g'; clear E. local_step Inv Ht ts Hpc.
-      right; right. repeat split; reflexivity.
+    - (* WCkW: a skipped checkpoint changes nothing; a real one only records the persisted
+         version (even when the snapshot write fails) *)
+      cbn zeta.
+      match goal with |- (if ?b then _ else _) = _ -> _ => destruct b end;
+        intros E; inversion E; subst g'; clear E; local_step Inv Ht ts Hpc;
+        right; right; repeat split; reflexivity.
     - (* RRead *)
       destruct (free (g_S g)) eqn:F; [|discriminate].
       destruct (sm_get cmp (km (g_idx g)) k) eqn:G;
@@ -980,6 +1071,8 @@ Section ConcInv.
     - (* GLooked *)
       destruct size_only; intros E; inversion E; subst g'; clear E; local_step Inv Ht ts Hpc.
     - (* GOpen *)
+      destruct (bad (ihash it)) eqn:Bd;
+        [intros E; inversion E; subst g'; clear E; local_step Inv Ht ts Hpc|].
       destruct (sm_get lex_cmp (g_cas g) (ihash it)) eqn:G;
         intros E; inversion E; subst g'; clear E; local_step Inv Ht ts Hpc.
     - (* GReread *)
@@ -990,7 +1083,7 @@ Section ConcInv.
         * intros X. rewrite F in X. exfalso; apply X; reflexivity.
       + intros E; inversion E; subst g'; clear E; local_step Inv Ht ts Hpc.
     - (* GOpenL *)
-      destruct (sm_get lex_cmp (g_cas g) (ihash it)) eqn:G;
+      destruct (bad (ihash it)) eqn:Bd; [|destruct (sm_get lex_cmp (g_cas g) (ihash it)) eqn:G];
         intros E; inversion E; subst g'; clear E; local_step Inv Ht ts Hpc;
         try (right; right; repeat split; reflexivity);
         intros X; rewrite (ci_SR _ Inv X); reflexivity.
@@ -1010,10 +1103,10 @@ Section ConcInv.
     - (* OUnlink *)
       destruct Pt as [Hun Hup].
       assert (X : forall ts', (t_pc ts' = Idle \/ exists a b c, t_pc ts' = OLockI a b c) ->
-                              t_calls ts' = t_calls ts ->
+                              t_calls ts' = t_calls ts -> incl (t_res ts) (t_res ts') ->
                 ConcInv (mkC (g_idx g) (g_bykey g) (g_byhash g) (sm_del lex_cmp (g_cas g) h)
                              (g_nextv g) None (g_S g) (g_R g) (tset (g_thr g) t ts'))).
-      { intros ts' Hp Hcalls.
+      { intros ts' Hp Hcalls Hres.
         apply (step_unlink g t ts ts' h None Inv Ht Hun Hup); rewrite ?Hpc.
         - intros; reflexivity.
         - destruct Hp as [->|(a & b & c & ->)]; reflexivity.
@@ -1022,15 +1115,20 @@ Section ConcInv.
         - destruct Hp as [->|(a & b & c & ->)]; reflexivity.
         - destruct Hp as [->|(a & b & c & ->)]; exact I.
         - rewrite Hcalls. exact Ct.
+        - exact Hres.
         - intros x _ []. }
+      destruct (bad h) eqn:Bd.
+      { cbn beta iota zeta. destruct todo; intros E; inversion E; subst g'; clear E;
+          local_step Inv Ht ts Hpc; right; right; repeat split; reflexivity. }
       destruct (sm_get lex_cmp (g_cas g) h) eqn:G; cbn beta iota zeta;
         destruct todo; intros E; inversion E; subst g'; clear E; unfold finish, set_pc;
         cbn [g_idx g_bykey g_byhash g_cas g_nextv g_I g_S g_R g_thr t_calls t_res t_pc].
-      + apply X; [left; reflexivity|reflexivity].
-      + apply X; [right; eexists _, _, _; reflexivity|reflexivity].
-      + rewrite <- (LX del_absent _ _ G) at 1. apply X; [left; reflexivity|reflexivity].
+      + apply X; [left; reflexivity|reflexivity|apply incl_appl, incl_refl].
+      + apply X; [right; eexists _, _, _; reflexivity|reflexivity|apply incl_refl].
       + rewrite <- (LX del_absent _ _ G) at 1.
-        apply X; [right; eexists _, _, _; reflexivity|reflexivity].
+        apply X; [left; reflexivity|reflexivity|apply incl_appl, incl_refl].
+      + rewrite <- (LX del_absent _ _ G) at 1.
+        apply X; [right; eexists _, _, _; reflexivity|reflexivity|apply incl_refl].
   Qed.
 
 
@@ -1067,15 +1165,15 @@ Section ConcInv.
       inversion E; subst. reflexivity.
     - intros t ts G. apply tget_init in G. destruct G as (cs & Ics & ->). cbn [t_pc t_calls pc_ok].
       split; [exact I|]. intros k c Ic. eapply contents_in; eassumption.
-    - intros h c G. right; right; right.
+    - intros h c G. right; right; right; left.
       apply (lex_get_in _ _ _ cas0_sorted) in G.
       apply in_map_iff. exists (h, c). split; [reflexivity|exact G].
   Qed.
 
-  Lemma crun_inv sched : forall g, ConcInv g -> ConcInv (crun H cmp nops g sched).
+  Lemma crun_inv sched : forall g, ConcInv g -> ConcInv (crun H cmp nops bad ckbad g sched).
   Proof using cmp_refl cmp_eq cmp_antisym cmp_trans NoCollideC.
     induction sched as [|t r IH]; intros g Inv; cbn [crun]; [exact Inv|].
-    destruct (cstep H cmp nops g t) as [g'|] eqn:E; [|apply IH, Inv].
+    destruct (cstep H cmp nops bad ckbad g t) as [g'|] eqn:E; [|apply IH, Inv].
     apply IH. eapply cstep_inv; eassumption.
   Qed.
 
@@ -1087,14 +1185,14 @@ Section ConcInv.
   Lemma reachable_init : reachable (init_c thr0 cas0).
   Proof using. exists []. reflexivity. Qed.
 
-  Lemma reachable_step g t g' : reachable g -> cstep H cmp nops g t = Some g' -> reachable g'.
+  Lemma reachable_step g t g' : reachable g -> cstep H cmp nops bad ckbad g t = Some g' -> reachable g'.
   Proof using.
     intros [sched ->] E. exists (sched ++ [t]).
-    assert (A : forall s g0, crun H cmp nops g0 (s ++ [t]) =
-                             match cstep H cmp nops (crun H cmp nops g0 s) t with
-                             | Some g1 => g1 | None => crun H cmp nops g0 s end).
-    { induction s as [|u s IH]; intros g0; cbn [app crun]; [destruct (cstep _ _ _ g0 t); reflexivity|].
-      destruct (cstep H cmp nops g0 u); apply IH. }
+    assert (A : forall s g0, crun H cmp nops bad ckbad g0 (s ++ [t]) =
+                             match cstep H cmp nops bad ckbad (crun H cmp nops bad ckbad g0 s) t with
+                             | Some g1 => g1 | None => crun H cmp nops bad ckbad g0 s end).
+    { induction s as [|u s IH]; intros g0; cbn [app crun]; [destruct (cstep _ _ _ _ _ g0 t); reflexivity|].
+      destruct (cstep H cmp nops bad ckbad g0 u); apply IH. }
     rewrite A, E. reflexivity.
   Qed.
 
